@@ -298,7 +298,12 @@ func checkPair(c pairCase) string {
 	if !inDomain(a) || !inDomain(b) {
 		return ""
 	}
-	want := cmpVal(a, b)
+	return judgePair(a, b, cmpVal(a, b))
+}
+
+// judgePair: Compare (both argument orders) and the six operators on (a, b)
+// as given - no copies, so shared Go structure stays shared - against want.
+func judgePair(a, b any, want int) string {
 	if got := gojq.Compare(a, b); got != want {
 		return fmt.Sprintf("Compare(%s, %s) = %d, the order says %d", univ.Show(a), univ.Show(b), got, want)
 	}
@@ -463,8 +468,7 @@ func checkArr(c arrCase) string {
 	if code == nil || !ok || !inDomain(arr) || !inDomain(c.X.X) {
 		return ""
 	}
-	keys, ok := keysOf(c.Fn, arr)
-	if !ok {
+	if _, ok := keysOf(c.Fn, arr); !ok {
 		return ""
 	}
 	var input any = univ.Copy(arr)
@@ -472,18 +476,27 @@ func checkArr(c arrCase) string {
 		input = []any{univ.Copy(arr), univ.Copy(c.X.X)}
 	}
 	res := run.Exec(code, input, 0, 4)
-	where := fmt.Sprintf("%s on %s", arrQueries[c.Fn], univ.Show(input))
+	return judgeArr(c.Fn, arr, c.X.X, res, fmt.Sprintf("%s on %s", arrQueries[c.Fn], univ.Show(input)))
+}
+
+// judgeArr: the oracle for one array consumer: res is what gojq produced for
+// fn on arr (and x); everything expected is computed from cmpVal on arr / x.
+func judgeArr(fn string, arr []any, x any, res run.Result, where string) string {
+	keys, ok := keysOf(fn, arr)
+	if !ok {
+		return ""
+	}
 	if res.Err != nil || len(res.Vals) != 1 {
 		return fmt.Sprintf("%s: err=%v outputs=%s", where, res.Err, univ.ShowAll(res.Vals))
 	}
 	got := res.Vals[0]
-	switch c.Fn {
+	switch fn {
 	case "sort", "sort_by", "sort_by2":
 		out, ok := got.([]any)
 		if !ok || len(out) != len(arr) {
 			return fmt.Sprintf("%s = %s: not an array of the input's length", where, univ.Show(got))
 		}
-		okeys, shaped := keysOf(c.Fn, out)
+		okeys, shaped := keysOf(fn, out)
 		if shaped {
 			for i := 1; i < len(okeys); i++ {
 				if cmpVal(okeys[i-1], okeys[i]) > 0 {
@@ -524,7 +537,7 @@ func checkArr(c arrCase) string {
 			}
 			return ""
 		}
-		best, isMin := 0, strings.HasPrefix(c.Fn, "min")
+		best, isMin := 0, strings.HasPrefix(fn, "min")
 		for i := 1; i < len(arr); i++ {
 			// min: the first minimum; max: the last maximum
 			if d := cmpVal(keys[i], keys[best]); isMin && d < 0 || !isMin && d >= 0 {
@@ -533,7 +546,7 @@ func checkArr(c arrCase) string {
 		}
 		if !univ.Same(got, arr[best]) {
 			which := "first minimum"
-			if strings.HasPrefix(c.Fn, "max") {
+			if strings.HasPrefix(fn, "max") {
 				which = "last maximum"
 			}
 			return fmt.Sprintf("%s = %s, the %s is element %d = %s", where, univ.Show(got), which, best, univ.Show(arr[best]))
@@ -546,7 +559,7 @@ func checkArr(c arrCase) string {
 		}
 		less, eq := 0, 0
 		for _, e := range arr {
-			switch cmpVal(e, c.X.X) {
+			switch cmpVal(e, x) {
 			case -1:
 				less++
 			case 0:
@@ -565,7 +578,7 @@ func checkArr(c arrCase) string {
 			return fmt.Sprintf("%s = %d: no equal element, insertion point %d, want %d", where, r, less, -1-less)
 		}
 	case "subtract":
-		sub, ok := c.X.X.([]any)
+		sub, ok := x.([]any)
 		if !ok {
 			return ""
 		}
@@ -587,9 +600,9 @@ func checkArr(c arrCase) string {
 			return fmt.Sprintf("%s = %s: want the elements at %v", where, univ.Show(got), keep)
 		}
 	case "index", "rindex", "indices":
-		needle, ok := c.X.X.([]any)
+		needle, ok := x.([]any)
 		if !ok {
-			needle = []any{c.X.X}
+			needle = []any{x}
 		}
 		if len(needle) == 0 {
 			return "" // empty needle: not about the order
@@ -601,11 +614,11 @@ func checkArr(c arrCase) string {
 			}
 		}
 		var want any = hits
-		if c.Fn != "indices" {
+		if fn != "indices" {
 			want = nil
 			if len(hits) > 0 {
 				want = hits[0]
-				if c.Fn == "rindex" {
+				if fn == "rindex" {
 					want = hits[len(hits)-1]
 				}
 			}
@@ -643,6 +656,219 @@ func ntArr(c arrCase) bool {
 		return false
 	}
 	return hasEqualPair(keys)
+}
+
+// ---------------------------------------------------------------------------
+// values that SHARE Go structure: slices of one array, the same container
+// twice.  gojq's slice operator returns vs[start:end] without copying, so such
+// values arise in ordinary programs; the order must not depend on identity.
+
+type aliasSpec struct {
+	K string `json:"k"` // slice | elem | elemslice | fresh | nest | twice
+	I int    `json:"i"`
+	J int    `json:"j"`
+	E int    `json:"e"`
+}
+
+type aliasCase struct {
+	Base    univ.V      `json:"base"`    // the array a, length >= 1
+	Fn      string      `json:"fn"`      // "compare" or an array consumer
+	Via     string      `json:"via"`     // "go": built in Go and passed in; "jq": the query derives them from $a
+	Members []aliasSpec `json:"members"` // compare: the pair; otherwise the array's members
+	X       []aliasSpec `json:"x"`       // bsearch target / index needle (X[0], or [X...] when Wrap) / subtrahend members
+	Wrap    bool        `json:"wrap"`
+}
+
+func clamp(x, lo, hi int) int { return max(lo, min(hi, x)) }
+
+// build derives the value from a at Go level (sharing a's storage); jq is the
+// jq expression over $a that denotes the same value.
+func (s aliasSpec) build(a []any) (any, string) {
+	n := len(a)
+	i := clamp(s.I, 0, n)
+	j := clamp(s.J, i, n)
+	e := clamp(s.E, 0, n-1)
+	switch s.K {
+	case "elem":
+		return a[e], fmt.Sprintf("$a[%d]", e)
+	case "elemslice":
+		if b, ok := a[e].([]any); ok {
+			i, j := clamp(s.I, 0, len(b)), clamp(s.J, clamp(s.I, 0, len(b)), len(b))
+			return b[i:j], fmt.Sprintf("$a[%d][%d:%d]", e, i, j)
+		}
+		return a[e], fmt.Sprintf("$a[%d]", e)
+	case "fresh": // a new array holding the same element objects
+		return append([]any{}, a[i:j]...), fmt.Sprintf("[$a[%d:%d][]]", i, j)
+	case "nest": // an array whose elements are slices of a
+		return []any{a[i:j], a[:j]}, fmt.Sprintf("[$a[%d:%d], $a[:%d]]", i, j, j)
+	case "twice": // the same object placed twice
+		return []any{a[e], a[e]}, fmt.Sprintf("[$a[%d], $a[%d]]", e, e)
+	}
+	return a[i:j], fmt.Sprintf("$a[%d:%d]", i, j)
+}
+
+var aliasFns = []string{"compare", "sort", "sort_by", "group_by", "unique", "unique_by", "min", "max", "min_by", "max_by", "bsearch", "subtract", "index", "rindex", "indices"}
+
+func checkAlias(c aliasCase) string {
+	base, ok := c.Base.X.([]any)
+	if !ok || len(base) == 0 || !inDomain(base) || len(c.Members) == 0 || len(c.Members) > 40 || len(c.X) > 40 {
+		return ""
+	}
+	a := univ.Copy(base).([]any) // the one array everything below shares
+	var ms, xs []any
+	var mq, xq []string
+	for _, s := range c.Members {
+		v, q := s.build(a)
+		ms, mq = append(ms, v), append(mq, q)
+	}
+	for _, s := range c.X {
+		v, q := s.build(a)
+		xs, xq = append(xs, v), append(xq, q)
+	}
+	exec := func(q string) (run.Result, string) {
+		q = ". as $a | " + q
+		code, err := run.Compile(q)
+		if err != nil {
+			return run.Result{Err: err}, q
+		}
+		return run.Exec(code, a, 0, 4), q + " on " + univ.Show(a)
+	}
+	if c.Fn == "compare" {
+		if len(ms) != 2 {
+			return ""
+		}
+		want := cmpVal(univ.Copy(ms[0]), univ.Copy(ms[1])) // the oracle sees deep copies
+		if c.Via != "jq" {
+			if msg := judgePair(ms[0], ms[1], want); msg != "" {
+				return "values sharing storage (" + mq[0] + " and " + mq[1] + " of $a = " + univ.Show(a) + "): " + msg
+			}
+			return ""
+		}
+		res, where := exec(fmt.Sprintf("(%s) as $x | (%s) as $y | [$x == $y, $x != $y, $x < $y, $x <= $y, $x > $y, $x >= $y, (%s) == (%s), (%s) < (%s), (%s) >= (%s)]", mq[0], mq[1], mq[0], mq[1], mq[0], mq[1], mq[0], mq[1]))
+		wantv := []any{}
+		for _, op := range append(append([]string{}, ops...), "==", "<", ">=") {
+			wantv = append(wantv, project(op, want))
+		}
+		if res.Err != nil || len(res.Vals) != 1 || !univ.Same(res.Vals[0], wantv) {
+			return fmt.Sprintf("%s: err=%v outputs=%s, the order (%d) says %s", where, res.Err, univ.ShowAll(res.Vals), want, univ.Show(wantv))
+		}
+		return ""
+	}
+	if arrCodes[c.Fn] == nil || strings.HasSuffix(c.Fn, "2") {
+		return ""
+	}
+	if c.Fn == "bsearch" { // the claim is about sorted arrays: put the members in order
+		idx := stableOrder(univ.Copy(ms).([]any))
+		ms2, mq2 := make([]any, len(ms)), make([]string, len(ms))
+		for n, i := range idx {
+			ms2[n], mq2[n] = ms[i], mq[i]
+		}
+		ms, mq = ms2, mq2
+	}
+	var x any
+	xq1 := ""
+	if pairFns[c.Fn] {
+		if len(xs) == 0 {
+			return ""
+		}
+		x, xq1 = xs[0], xq[0]
+		if c.Fn == "subtract" || c.Wrap && c.Fn != "bsearch" {
+			x, xq1 = xs, "["+strings.Join(xq, ", ")+"]"
+		}
+	}
+	arr := ms
+	arrq := "[" + strings.Join(mq, ", ") + "]"
+	if recordFns[c.Fn] {
+		arr = make([]any, len(ms))
+		for i, m := range ms {
+			arr[i] = map[string]any{"k": m, "p": i}
+		}
+		arrq += " as $m | [range($m | length) | {k: $m[.], p: .}]"
+	}
+	var res run.Result
+	var where string
+	if c.Via == "jq" {
+		switch c.Fn {
+		case "subtract":
+			res, where = exec(arrq + " - " + xq1)
+		case "bsearch", "index", "rindex", "indices":
+			res, where = exec(fmt.Sprintf("%s | %s(%s)", arrq, c.Fn, xq1))
+		default:
+			res, where = exec(arrq + " | " + arrQueries[c.Fn])
+		}
+	} else {
+		var input any = arr
+		if pairFns[c.Fn] {
+			input = []any{arr, x}
+		}
+		res = run.Exec(arrCodes[c.Fn], input, 0, 4)
+		where = fmt.Sprintf("%s on %s = %s of $a = %s (storage shared)", arrQueries[c.Fn], univ.Show(input), arrq, univ.Show(a))
+	}
+	return judgeArr(c.Fn, univ.Copy(arr).([]any), univ.Copy(x), res, where)
+}
+
+func genAliasSpec(t *rapid.T, n int) aliasSpec {
+	s := aliasSpec{
+		K: rapid.SampledFrom([]string{"slice", "slice", "slice", "slice", "elem", "elemslice", "nest", "twice", "fresh"}).Draw(t, "k"),
+		I: rapid.IntRange(0, n).Draw(t, "i"),
+		J: rapid.IntRange(0, n).Draw(t, "j"),
+		E: rapid.IntRange(0, n-1).Draw(t, "e"),
+	}
+	switch rapid.IntRange(0, 3).Draw(t, "shape") {
+	case 0:
+		s.I = 0 // prefix
+	case 1:
+		s.J = n // suffix
+	case 2:
+		s.I, s.J = 0, n // all of it
+	}
+	if s.J < s.I && s.K != "elemslice" {
+		s.I, s.J = s.J, s.I
+	}
+	return s
+}
+
+func genAliasCase(t *rapid.T) aliasCase {
+	n := rapid.IntRange(1, 6).Draw(t, "n")
+	base := make([]any, n)
+	for i := range base {
+		switch rapid.IntRange(0, 3).Draw(t, "elemkind") {
+		case 0:
+			base[i] = pick(t, "uval", U)
+		case 1:
+			m := rapid.IntRange(1, 3).Draw(t, "inner")
+			in := make([]any, m)
+			for j := range in {
+				in[j] = genScalar(t)
+			}
+			base[i] = in
+		default:
+			base[i] = genVal(t, 2)
+		}
+	}
+	c := aliasCase{Base: univ.V{X: base}, Fn: rapid.SampledFrom(aliasFns).Draw(t, "fn"), Via: rapid.SampledFrom([]string{"go", "jq"}).Draw(t, "via")}
+	k := 2
+	if c.Fn != "compare" {
+		k = rapid.IntRange(2, 6).Draw(t, "members")
+	}
+	for i := 0; i < k; i++ {
+		c.Members = append(c.Members, genAliasSpec(t, n))
+	}
+	if pairFns[c.Fn] {
+		c.Wrap = rapid.Bool().Draw(t, "wrap")
+		for i, k := 0, rapid.IntRange(1, 3).Draw(t, "xs"); i < k; i++ {
+			c.X = append(c.X, genAliasSpec(t, n))
+		}
+	}
+	return c
+}
+
+func doAlias(sub string, c aliasCase) string {
+	rec.Eval()
+	rec.Class("aliased/" + c.Fn + "/" + c.Via)
+	b, _ := json.Marshal(c)
+	rec.NT(sub + "/" + string(b))
+	return checkAlias(c)
 }
 
 // ---------------------------------------------------------------------------
@@ -1689,6 +1915,12 @@ func replayCase(sub string, raw json.RawMessage) string {
 			return bad(err)
 		}
 		return checkObj(c)
+	case "aliased", "aliased-small":
+		var c aliasCase
+		if err := json.Unmarshal(raw, &c); err != nil {
+			return bad(err)
+		}
+		return checkAlias(c)
 	case "cli", "cli-yaml":
 		var c cliCase
 		if err := json.Unmarshal(raw, &c); err != nil {
@@ -1849,6 +2081,71 @@ func TestC11(t *testing.T) {
 		}
 	}
 	rec.Exhaustive(fmt.Sprintf("arrays of length <= %d over the %d-value mini universe x 14 consumers", L, len(miniU)), complete)
+
+	// (E3) values sharing Go storage: every pair of slices of one 4-element
+	// array through Compare / the operators, every triple (pair + needle for
+	// the binary consumers) of its prefixes and suffixes through the array
+	// consumers; built in Go and derived by the query itself.
+	abase := []any{1, []any{2, 3}, map[string]any{"a": 1}, "x"}
+	var slices, ends []aliasSpec
+	for i := 0; i <= len(abase); i++ {
+		for j := i; j <= len(abase); j++ {
+			slices = append(slices, aliasSpec{K: "slice", I: i, J: j})
+			if (i == 0 || j == len(abase)) && i < j {
+				ends = append(ends, aliasSpec{K: "slice", I: i, J: j})
+			}
+		}
+	}
+	ends = append(ends, aliasSpec{K: "elemslice", E: 1, I: 0, J: 1}, aliasSpec{K: "elem", E: 1}, aliasSpec{K: "nest", I: 0, J: 2})
+	complete = true
+	ai := 0
+	adirect := func(c aliasCase) {
+		ai++
+		if !rec.Mine(ai) {
+			return
+		}
+		for _, via := range []string{"go", "jq"} {
+			c.Via = via
+			if msg := doAlias("aliased-small", c); msg != "" {
+				rec.Direct("aliased-small", c, "%s", msg)
+				complete = false
+				tooMany()
+			}
+		}
+	}
+	for _, x := range slices {
+		for _, y := range slices {
+			adirect(aliasCase{Base: univ.V{X: abase}, Fn: "compare", Members: []aliasSpec{x, y}})
+		}
+	}
+	for _, x := range ends {
+		for _, y := range ends {
+			for _, z := range ends {
+				for _, fn := range aliasFns[1:10] {
+					adirect(aliasCase{Base: univ.V{X: abase}, Fn: fn, Members: []aliasSpec{x, y, z}})
+				}
+			}
+			for _, z := range ends {
+				for _, fn := range aliasFns[10:] {
+					adirect(aliasCase{Base: univ.V{X: abase}, Fn: fn, Members: []aliasSpec{x, y}, X: []aliasSpec{z}})
+					adirect(aliasCase{Base: univ.V{X: abase}, Fn: fn, Members: []aliasSpec{x, y}, X: []aliasSpec{z}, Wrap: true})
+				}
+			}
+		}
+	}
+	rec.Exhaustive(fmt.Sprintf("storage-sharing slices of one array: %d x %d pairs, %d^3 member triples x consumers", len(slices), len(slices), len(ends)), complete)
+
+	// (R0) random arrays, random storage-sharing derivations
+	rec.Rapid(t, "aliased", rec.Scale(48000, 900000), func(t *rapid.T) {
+		c := genAliasCase(t)
+		if !inDomain(c.Base.X) {
+			t.Fatalf("%s", rec.Fail("aliased", c, "harness: generated value outside the precondition"))
+		}
+		rec.Sample(c)
+		if msg := doAlias("aliased", c); msg != "" {
+			t.Fatalf("%s", rec.Fail("aliased", c, "%s", msg))
+		}
+	})
 
 	// (R1) random deep values: pairs and triples, near neighbours, equal
 	// values in other representations.
